@@ -746,6 +746,8 @@ def _mutarg_defs(body):
                 rv = s.rv
                 if rv.r in ('ref', 'rawptr') and rv.j.get('mut'):
                     base = rv.place[0]
+                    if rv.place[1] and rv.place[1][0] == ('deref',):
+                        continue  # reborrow through a reference: handled by propagation below
                     refmap[s.place[0]].add(base)
     # propagate through moves/casts of the ref and reborrows (&mut *r)
     changed = True
@@ -1015,7 +1017,8 @@ def must_derive(body, local, is_src, extra_transparent=(), allow_partial=False, 
         for (bb, t, ai) in mds:
             if is_src('mutarg', (t, ai), bb):
                 continue
-            if allow_partial:
+            if allow_partial or not is_data_type(body.lty(l)):
+                # objects (readers, writers, generators, maps) keep their identity when a method mutates them
                 continue
             # a &mut borrow handed to a call may overwrite the value
             return fail('%s may be written through &mut by %s at %s' % (body.lname(l), t.cargs, body.loc(bb)))
@@ -1296,3 +1299,102 @@ def norm_q(path):
                         return '<%s as %s>%s' % (norm(a), norm(b), norm(rest))
                     return '<%s>%s' % (norm(inner), norm(rest))
     return norm(s)
+
+
+# ------------------------------------------------------------------ path-sensitive reachability on constant bool flags
+def flag_locals(body):
+    """bool locals all of whose definitions are constant assignments or copies of other flag locals"""
+    if getattr(body, '_flags', None) is not None:
+        return body._flags
+    cand = {i for i, l in enumerate(body.locals) if l['ty'] == 'bool' and i > body.arg_count}
+    changed = True
+    ma = _mutarg_defs(body)
+    while changed:
+        changed = False
+        for l in list(cand):
+            ok = True
+            if l in ma or l in refmap(body):
+                ok = False
+            for (bb, si, kind, obj) in body.defs.get(l, []):
+                if kind != 'assign' or obj.kind != 'assign' or obj.place[1]:
+                    ok = False
+                    break
+                rv = obj.rv
+                if rv.r == 'use' and rv.ops[0].kind == 'const' and rv.ops[0].const_int() in (0, 1):
+                    continue
+                if rv.r == 'use' and rv.ops[0].place is not None and not rv.ops[0].place[1] and rv.ops[0].place[0] in cand:
+                    continue
+                ok = False
+                break
+            # a flag whose address is taken is not tracked
+            if ok:
+                for b in body.blocks:
+                    for s in b.stmts:
+                        if s.kind == 'assign' and s.rv.r in ('ref', 'rawptr') and s.rv.place[0] == l:
+                            ok = False
+            if not ok:
+                cand.discard(l)
+                changed = True
+    body._flags = cand
+    return cand
+
+
+def reachable_ps(body, start, removed_blocks=(), removed_edges=(), env0=None):
+    """blocks reachable from `start` when constant bool flags are tracked along the path (infeasible
+    branch edges on known flags are not taken). Sound over-approximation of feasible paths, tighter than plain
+    reachability. Normal edges only."""
+    flags = flag_locals(body)
+    removed_blocks = set(removed_blocks)
+    removed_edges = set(removed_edges)
+    env0 = dict(env0 or {})
+    if start in removed_blocks:
+        return set()
+    init = (start, tuple(sorted(env0.items())))
+    seen = {init}
+    st = [init]
+    blocks = set()
+    while st:
+        bb, envt = st.pop()
+        blocks.add(bb)
+        env = dict(envt)
+        b = body.blocks[bb]
+        for s in b.stmts:
+            if s.kind == 'assign' and not s.place[1] and s.place[0] in flags:
+                rv = s.rv
+                if rv.r == 'use' and rv.ops[0].kind == 'const':
+                    env[s.place[0]] = rv.ops[0].const_int()
+                elif rv.r == 'use' and rv.ops[0].place is not None:
+                    v = env.get(rv.ops[0].place[0])
+                    if v is None:
+                        env.pop(s.place[0], None)
+                    else:
+                        env[s.place[0]] = v
+        t = b.term
+        succs = t.succs(False)
+        if t.kind == 'switch' and t.discr.place is not None and not t.discr.place[1] and t.discr.place[0] in flags:
+            v = env.get(t.discr.place[0])
+            if v is not None:
+                tgt = None
+                for val, tg in t.targets:
+                    if val == v:
+                        tgt = tg
+                if tgt is None:
+                    tgt = t.otherwise
+                succs = [tgt]
+        envt2 = tuple(sorted(env.items()))
+        for s2 in succs:
+            if s2 in removed_blocks or (bb, s2) in removed_edges:
+                continue
+            st2 = (s2, envt2)
+            if st2 not in seen:
+                seen.add(st2)
+                st.append(st2)
+    return blocks
+
+
+DATA_PREFIXES = ('[', 'std::vec::Vec<', 'u8', 'u16', 'u32', 'u64', 'u128', 'usize', 'i8', 'i16', 'i32', 'i64', 'i128', 'isize',
+                 'std::string::String', 'bool', '(', 'generic_array::GenericArray<', 'std::boxed::Box<[', 'char')
+
+
+def is_data_type(ty):
+    return ty.startswith(DATA_PREFIXES)
